@@ -1,3 +1,5 @@
+import Sonic.Spec.Decimal
+
 /-!
 # Spec: "shortest decimal that reads back to the same double, closest among the shortest"
 
@@ -15,6 +17,7 @@ themselves included iff `c` is even.
 * `parseDecText`: exact meaning `(neg, sig, exp)` of a JSON number text, trailing zeros of `sig` stripped.
 -/
 namespace Sonic.Spec.Shortest
+open Sonic.Spec (decimal)
 
 /-! ## exact values -/
 
@@ -209,6 +212,27 @@ def normalize (sig : Nat) (exp : Int) : Nat × Int := if sig = 0 then (0, 0) els
 
 /-- the text contains a fraction or an exponent (so a JSON reader takes it as a double) -/
 def hasFracOrExp (t : List Nat) : Bool := t.contains 46 || t.contains 101 || t.contains 69
+
+/-! ## reference rendering -/
+
+/-- Reference rendering of the non-zero magnitude `m·10^e` (`m` without trailing zeros, `D` its digits,
+    `sci` the exponent in scientific notation):
+    * `sci < -6` or `sci > 20`: `d[.ddd]e±X`,
+    * otherwise positional notation, always with a fraction: `ddd000.0`, `0.000ddd`, `dd.ddd`. -/
+def refBody (m : Nat) (e : Int) : List Nat :=
+  let D := decimal m
+  let point : Int := (D.length : Int) + e
+  let sci := point - 1
+  if sci < -6 ∨ sci > 20 then
+    (match D with
+     | [] => []
+     | d :: rest => d :: (if rest.isEmpty then [] else 46 :: rest)) ++
+    [101, if sci < 0 then 45 else 43] ++ decimal sci.natAbs
+  else if 0 ≤ e then D ++ List.replicate e.toNat 48 ++ [46, 48]
+  else if point ≤ 0 then [48, 46] ++ List.replicate (-point).toNat 48 ++ D
+  else D.take point.toNat ++ 46 :: D.drop point.toNat
+
+def refText (neg : Bool) (m : Nat) (e : Int) : List Nat := (if neg then [45] else []) ++ refBody m e
 
 /-! ## decomposition of a bit pattern -/
 
